@@ -49,7 +49,10 @@ class MethodDescriptor(metaclass=ABCMeta):
 
     def __get__(self, instance: Any, spec_cls: Type = None) -> Callable:
         if self.dissolve:
-            setattr(spec_cls, self.name, self.method)
+            # Dissolve into the class that this descriptor is attached to, which
+            # is not necessarily the class through which it was looked up (e.g.
+            # a subclass that overrides this method and reaches it via `super()`).
+            setattr(self.spec_cls or spec_cls, self.name, self.method)
         if instance is not None:
             return types.MethodType(self.method, instance)
         return self.method
